@@ -196,7 +196,7 @@ theorem inv_control (s : State) (k : EnvId) (ev : CEv) (fails : List (TaskId × 
         · have h0 : Inv (restartCalls s k E ev) := by
             unfold restartCalls
             split
-            · exact inv_setEnv _ _ _ (inv_congr h rfl rfl rfl rfl rfl) (fun _ => ⟨rfl, rfl, rfl, rfl⟩)
+            · exact inv_setEnv _ _ _ h (fun _ => ⟨rfl, rfl, rfl, rfl⟩)
             · exact h
           generalize restartCalls s k E ev = s0 at h0 ⊢
           simp only []
@@ -402,11 +402,11 @@ theorem inv_tdFinish (s s1 : State) (k : EnvId) (E : Env) (late : Bool) (hf : Li
   split
   · -- the call hangs: the environment stays listed, marked
     have hen : (setEnv (tdCancel s1 E.id E) E.id (fun X => { X with tearing := true })).envs =
-        s.envs.map (fun X => if X.id = E.id then { X with pending := 0, tearing := true } else X) := by
+        s.envs.map (fun X => if X.id = E.id then { X with cancelled := X.cancelled + X.pending, pending := 0, tearing := true } else X) := by
       simp only [setEnv, tdCancel, he, List.map_map]
       congr 1; funext X; by_cases hk : X.id = E.id <;> simp [hk]
     obtain ⟨a, b, c⟩ := envs_after_mark s.envs E.id
-      (fun X => if X.id = E.id then { X with pending := 0, tearing := true } else X)
+      (fun X => if X.id = E.id then { X with cancelled := X.cancelled + X.pending, pending := 0, tearing := true } else X)
       (by intro X; by_cases hk : X.id = E.id <;> simp [hk]) h.envNodup
     apply inv_release_env h E hE hte hp (relMap E.id ids1) hg1
       (s' := setEnv (tdCancel s1 E.id E) E.id (fun X => { X with tearing := true }))
@@ -433,10 +433,10 @@ theorem inv_tdFinish (s s1 : State) (k : EnvId) (E : Env) (late : Bool) (hf : Li
     rw [herr]
     simp only [Nat.lt_irrefl, if_false]
     have hen : ((releaseTasks (tdCancel s1 E.id E) E.id (tdMsg s1 E)).1.envs.filter (fun X => decide (X.id ≠ E.id))) =
-        (s.envs.map (fun X => if X.id = E.id then { X with pending := 0 } else X)).filter (fun X => decide (X.id ≠ E.id)) := by
+        (s.envs.map (fun X => if X.id = E.id then { X with cancelled := X.cancelled + X.pending, pending := 0 } else X)).filter (fun X => decide (X.id ≠ E.id)) := by
       simp [releaseTasks, tdCancel, setEnv, he]
     obtain ⟨a, b, c⟩ := envs_after_delete s.envs E.id
-      (fun X => if X.id = E.id then { X with pending := 0 } else X)
+      (fun X => if X.id = E.id then { X with cancelled := X.cancelled + X.pending, pending := 0 } else X)
       (by intro X; by_cases hk : X.id = E.id <;> simp [hk]) h.envNodup
     apply inv_release_env h E hE hte hp (fun t => relMap E.id (tdMsg s1 E) (relMap E.id ids1 t))
       (fun t => by
@@ -1078,12 +1078,10 @@ theorem inv_createConfigure (s : State) (k : EnvId) (spec : EnvSpec) (a : Acq) (
   · exact h
   · rename_i E _
     simp only []
-    have h3 : Inv (setEnv { (applyTrans s { E with state := .DEPLOYED } .CONFIGURE
-          (o.cfgFails.filterMap (fun f => (a.idOf f.1).map (fun t => (t, f.2))))).1 with
-        started := (applyTrans s { E with state := .DEPLOYED } .CONFIGURE
-          (o.cfgFails.filterMap (fun f => (a.idOf f.1).map (fun t => (t, f.2))))).1.started ++ [(k, callCount spec)] } k
-        (fun X => { X with pending := callCount spec })) :=
-      inv_setEnv _ _ _ (inv_congr (inv_applyTrans s _ _ _ h) rfl rfl rfl rfl rfl) (fun _ => ⟨rfl, rfl, rfl, rfl⟩)
+    have h3 : Inv (setEnv (applyTrans s { E with state := .DEPLOYED } .CONFIGURE
+          (o.cfgFails.filterMap (fun f => (a.idOf f.1).map (fun t => (t, f.2))))).1 k
+        (fun X => { X with pending := X.pending + callCount spec, started := X.started + callCount spec })) :=
+      inv_setEnv _ _ _ (inv_applyTrans s _ _ _ h) (fun _ => ⟨rfl, rfl, rfl, rfl⟩)
     split
     · exact inv_setEnv_state _ _ _ h3
     · exact inv_createFail _ k a.ids o.late .errConfigure o.hookFails h3 hp
@@ -1453,8 +1451,7 @@ theorem sub_tdFinish (s1 : State) (k : EnvId) (E : Env) (late : Bool) (hf : List
   simp only []
   have h2 : Sub s1 (tdCancel s1 k E) := by
     unfold tdCancel
-    exact (sub_of_same (s := s1) (s' := { s1 with cancelled := s1.cancelled ++ [(k, E.pending)] }) rfl rfl).trans
-      (sub_setEnv _ k _ (fun _ => ⟨rfl, rfl⟩))
+    exact sub_setEnv _ k _ (fun _ => ⟨rfl, rfl⟩)
   split
   · exact h2.trans (sub_setEnv _ k _ (fun _ => ⟨rfl, rfl⟩))
   · have h3 : Sub (tdCancel s1 k E) (releaseTasks (tdCancel s1 k E) k (tdMsg s1 E)).1 := sub_of_same rfl rfl
@@ -1583,11 +1580,9 @@ theorem sub_createConfigure (s : State) (k : EnvId) (spec : EnvSpec) (a : Acq) (
   · exact Sub.refl s
   · rename_i E _
     simp only []
-    have h3 : Sub s (setEnv { (applyTrans s { E with state := .DEPLOYED } .CONFIGURE
-          (o.cfgFails.filterMap (fun f => (a.idOf f.1).map (fun t => (t, f.2))))).1 with
-        started := (applyTrans s { E with state := .DEPLOYED } .CONFIGURE
-          (o.cfgFails.filterMap (fun f => (a.idOf f.1).map (fun t => (t, f.2))))).1.started ++ [(k, callCount spec)] } k
-        (fun X => { X with pending := callCount spec })) :=
+    have h3 : Sub s (setEnv (applyTrans s { E with state := .DEPLOYED } .CONFIGURE
+          (o.cfgFails.filterMap (fun f => (a.idOf f.1).map (fun t => (t, f.2))))).1 k
+        (fun X => { X with pending := X.pending + callCount spec, started := X.started + callCount spec })) :=
       sub_setEnv_over s _ k _ (fun _ => ⟨rfl, rfl⟩) rfl rfl
     split
     · exact h3.trans (sub_setEnv_state _ _ _)
